@@ -32,6 +32,46 @@ CHECKS = {
    technique="sanitizer build + reference-model monitors (std:: containers) + invariant walks + fault injection"),
 }
 
+
+CHECKS.update({
+ "C02": dict(category="exploration",
+   text="Runtime monitoring of the real a64::Assembler (ASan+UBSan build): every non-SVE record of the AArch64 database x one-dimension-at-a-time sweeps (register ids incl. SP/ZR and out-of-range ids, arrangements, lanes, shifts/extends, offsets, immediates, conditions; 6.6e4 emits quick, 9e5 thorough) judged by four monitors: byte equality with llvm-mc's encoding of our own ARM-syntax rendering, field match against the database bit template with independent immediate decoders, refusal of operands the generator marks unencodable, and llvm-mc's disassembly of AsmJit's word.",
+   design_ref="DESIGN.md section 2, C02", note="Nothing executes on AArch64 hardware: LLVM 14 is the semantic judge; SVE/SME/MOPS records are not generated; LLVM rejecting our text is 'no verdict'.",
+   technique="sanitizer build + differential assembling against llvm-mc + database template matcher"),
+ "C03": dict(category="exploration",
+   text="Runtime monitoring: random label programs (x86-32/x86-64/AArch64; all reference kinds, 1-4 sections, up to 64 pending fixups per label, distances on both sides of every range limit incl. +-128 MiB and +-2 GiB) assembled by the real code under ASan+UBSan; every reference site is decoded by our own field extractors and compared with API-boundary positions, a shadow count follows unresolved_fixup_count() after every call, x86-64 jump programs are executed natively and their marker trace compared, sampled sites are re-decoded by objdump/LLVM.",
+   design_ref="DESIGN.md section 2, C03", note="AArch64 and x86-32 are judged statically (no execution); +-2 GiB inside one section only in the thorough tier.",
+   technique="sanitizer build + reference-position monitor over label programs + native execution traces"),
+ "C04": dict(category="exploration",
+   text="Runtime monitoring: programs with absolute references relocated to 12 base-address classes, built once with the base known at init and once relocated afterwards; our evaluator walks the flattened image (abs fields, rel32 sites, address-table slots) and compares designated targets with expected ones; JitRuntime::add images are compared with an independent relocation and the code is called natively, reaching C functions > 2 GiB away through .addrtab.",
+   design_ref="DESIGN.md section 2, C04", note="Native calls on x86-64 only; other architectures evaluated on the image.",
+   technique="sanitizer build + relocation evaluator monitor + native calls through the address table"),
+ "C07": dict(category="exploration",
+   text="Runtime monitoring: 2.8e5 (quick) / 4e6 (thorough) random and boundary FuncFrames; prolog + generated monitor body + epilog are executed natively on x86-64 (register/canary trampoline), on x86-32 through a compatibility-mode far-call gate, and AArch64 prolog/epilog are interpreted symbolically from llvm-mc's disassembly; preserved registers (ABI documents, not asmjit tables), SP, alignment, canaries, stack-argument reads and pairwise disjointness of the reported areas are checked.",
+   design_ref="DESIGN.md section 2, C07", note="AArch64 is not executed (symbolic SP/slot tracking); light-call/custom conventions are judged against their own preserved masks; low 128 bits of vector registers compared.",
+   technique="native execution monitor (register image + canaries) + symbolic prolog/epilog interpreter"),
+ "C10": dict(category="exploration",
+   text="Runtime monitoring under ASan+UBSan: 1.6e4 (quick) / 1e6 (thorough) random section tables (names, alignments, orders, empty/data/virtual-only sections, address table, JitRuntime::add) laid out by the real flatten()/relocate_to_base()/copy_* code and compared with an independent layout function; destination buffers with canaries and ASan red zones, every destination byte classified.",
+   design_ref="DESIGN.md section 2, C10", note="Alignment demanded of non-empty sections only; order checked between sections with different order values.",
+   technique="sanitizer build + reference layout monitor + guard-banded destination buffers"),
+ "C11": dict(category="exploration",
+   text="Runtime monitoring with gcc ThreadSanitizer (6 repetitions quick, 50 thorough; 2..16 threads on one JitAllocator and one JitRuntime plus a thread walking hook H2, and threads generating code with private objects whose bytes are compared with the single-threaded result) and the same workload under ASan with the C09 content/overlap oracle; TSan reports de-duplicated by outermost asmjit frame pair; evidence lists the (op, op) pairs observed overlapping in time.",
+   design_ref="DESIGN.md section 2, C11", note="TSan sees only interleavings that occur; host information is initialised on the main thread first (the property's precondition).",
+   technique="ThreadSanitizer + concurrent history monitor (interval set, owner stamps, hook H2)"),
+ "C14": dict(category="exploration",
+   text="Runtime monitoring under ASan+UBSan: 2.3e5 (quick) arbitrary (id, options, extra register, operands) tuples per run through x86 Assembler/Builder/Compiler with returning, throwing and absent error handlers; for every failing call the driver records byte/label/fixup/relocation/section/node deltas, one-shot state and handler invocations; successful calls go to the C01 oracles; probe programs emitted between failures and at the end are compared with a fresh emitter; a second driver interleaves valid and invalid label/section/align/data API calls on x86 and AArch64.",
+   design_ref="DESIGN.md section 2, C14", note="Arbitrary operand kinds on x86 only (AArch64 has no operand validator; its perturbed-operand refusal is judged in C02).",
+   technique="sanitizer build + state-delta monitor at the API boundary + probe-program differential"),
+ "C15": dict(category="fault_enumeration",
+   text="Fault enumeration by runtime injection: for 20 workloads (assemble, build, compile on x86-64/x86-32/AArch64, JitRuntime::add incl. dual mapping and the shm fallback, containers, const pool, strings) every k-th arena request (hook H1), heap request (--wrap malloc/realloc/calloc) and virtual-memory request (--wrap mmap/ftruncate/shm_open/memfd) fails once, stickily, and twice at the same call site; each armed run executes in a forked worker under ASan+UBSan+LSan; the API must report an error or produce the clean output, a retry on the same objects must reproduce the clean bytes, and malloc/mmap/fd balances must return to the pre-case level.",
+   design_ref="DESIGN.md section 2, C15", note="Exhaustive over k for these workloads and failure modes only; multi-failure patterns beyond 'twin' are random (thorough).",
+   technique="fault injection at allocation hooks + sanitizers + retry/leak oracle"),
+ "C19": dict(category="exploration",
+   text="Runtime monitoring under ASan+UBSan: all add() sequences up to length 7 (quick) / 9 (thorough) over nine 6-element alphabets plus random/adversarial sequences to 2e4 adds and pools written out by Assembler/Builder/Compiler; a byte-map/interval model checks alignment, stability, deduplication, legal sharing only, fill() contents and zero gaps with canaries; x86-64 code loads every constant through the returned operand.",
+   design_ref="DESIGN.md section 2, C19", note="Only the stated alphabets/lengths are enumerated completely.",
+   technique="sanitizer build + reference-model monitor (bounded-exhaustive + random sequences)"),
+})
+
 NOT_YET = {}
 
 def main():
